@@ -233,8 +233,11 @@ fn run_store<S: Settings>(settings: S, sc: &StoreScenario) -> RunOutcome {
                     out.probe("filesystem_store_runs", 1);
                     Arc::new(FaultStore::new_filesystem(&fs_dir, sc.fail_write).unwrap_or_else(|e| crate::driver::harness_error(&format!("filesystem store: {e}"))))
                 } else {
-                    Arc::new(FaultStore::new(sc.fail_write, false))
+                    Arc::new(FaultStore::new(sc.fail_write, sc.crash_every_write))
                 };
+                // (store writes completed when a flush returned, prefixes acknowledged by then)
+                let acks: std::cell::RefCell<Vec<(u64, Vec<usize>)>> = std::cell::RefCell::new(vec![]);
+                let acks_ref = &acks;
                 let cfg = nuts_rs::ZarrConfig::new(fstore.clone()).with_chunk_size(sc.chunk_size).store_warmup(sc.store_warmup);
                 let hh = &h;
                 let fs2 = fstore.clone();
@@ -250,6 +253,7 @@ fn run_store<S: Settings>(settings: S, sc: &StoreScenario) -> RunOutcome {
                         flushed_ref.borrow_mut()[c] = done[c];
                         let snap = fs2.snapshot();
                         let upto = flushed_ref.borrow().clone();
+                        acks_ref.borrow_mut().push((fs2.state.lock().unwrap().writes, upto.clone()));
                         let n_flush = { let mut k = flush_count_ref.borrow_mut(); *k += 1; *k };
                         // the flushed chain is checked at every flush; all earlier acknowledgements of all chains
                         // are re-checked at every third flush and after finalize
@@ -292,6 +296,40 @@ fn run_store<S: Settings>(settings: S, sc: &StoreScenario) -> RunOutcome {
                     }
                     if !bad && prop != "C13" {
                         zarr_checks("zarr_sync", prop, "fresh reader after finalize", fstore.snapshot(), &h, &lens, None, sc, prop == "C14", &mut out);
+                    }
+                }
+                if sc.crash_every_write && prop == "C15" {
+                    // crash between two store writes: the snapshot taken after write k must still hold every prefix
+                    // that a flush which had returned before write k acknowledged
+                    let log = std::mem::take(&mut fstore.state.lock().unwrap().write_log);
+                    let acks = acks.borrow();
+                    let is_eligible = |k: u64| acks.iter().any(|(w, u)| *w < k && u.iter().any(|n| *n > 0));
+                    let n_eligible = log.iter().filter(|(k, _)| is_eligible(*k)).count();
+                    let stride = (n_eligible / 160).max(1);
+                    let off = (sc.ops_seed as usize) % stride;
+                    // the store as a fresh reader would find it after each write, rebuilt write by write
+                    let replay = Arc::new(zarrs::storage::store::MemoryStore::new());
+                    let mut i = 0usize;
+                    for (k, rec) in log.iter() {
+                        crate::storesim::apply_write_rec(&replay, rec);
+                        if !is_eligible(*k) {
+                            continue;
+                        }
+                        i += 1;
+                        if (i - 1) % stride != off && i != n_eligible {
+                            continue;
+                        }
+                        let Some((w, upto)) = acks.iter().rev().find(|(w, _)| w < k) else { continue };
+                        let acked: Vec<usize> = (0..upto.len()).filter(|c| upto[*c] > 0).collect();
+                        let before = out.violations.len();
+                        zarr_checks("zarr_sync", "C15", &format!("crash after store write {k} (last flush returned after write {w}, acknowledged prefixes {:?})", upto), replay.clone(), &h, upto, Some(&acked), sc, false, &mut out);
+                        for v in out.violations[before..].iter_mut() {
+                            v.key = v.key.replacen("C15/zarr_sync/", "C15/zarr_sync/crash_between_writes/", 1);
+                        }
+                        out.probe("crash_points_between_store_writes_checked", 1);
+                        if out.violations.len() > before {
+                            break;
+                        }
                     }
                 }
                 if sc.filesystem {
@@ -450,6 +488,9 @@ fn run_zarr_async<S: Settings>(settings: &S, sc: &StoreScenario, h: &Histories, 
     let flush_count: std::cell::RefCell<u64> = std::cell::RefCell::new(0);
     let flush_count_ref = &flush_count;
     store.armed.store(false, std::sync::atomic::Ordering::SeqCst);
+    store.keep_snapshots.store(sc.crash_every_write && prop == "C15", std::sync::atomic::Ordering::SeqCst);
+    let acks: std::cell::RefCell<Vec<Vec<usize>>> = std::cell::RefCell::new(vec![]);
+    let acks_ref = &acks;
     let arm = store.clone();
     let mut armed_once = false;
     let mut hooks = DriveHooks {
@@ -461,6 +502,8 @@ fn run_zarr_async<S: Settings>(settings: &S, sc: &StoreScenario, h: &Histories, 
             // what a fresh reader sees at the instant flush() returned
             let snap = snapshot_store(st2.inner.as_ref());
             let upto = flushed_ref.borrow().clone();
+            acks_ref.borrow_mut().push(upto.clone());
+            st2.acknowledge();
             let n_flush = { let mut k = flush_count_ref.borrow_mut(); *k += 1; *k };
             let only = [c];
             let chains: Option<&[usize]> = if n_flush % 3 == 0 { None } else { Some(&only) };
@@ -501,6 +544,39 @@ fn run_zarr_async<S: Settings>(settings: &S, sc: &StoreScenario, h: &Histories, 
         if !bad && prop != "C13" {
             // right after finalize returned: everything must be in the store
             zarr_checks("zarr_async", prop, "fresh reader after finalize", snapshot_store(store.inner.as_ref()), h, lens, None, sc, prop == "C14", out);
+        }
+    }
+    if sc.crash_every_write && prop == "C15" {
+        // crash between two store writes (whatever order tokio completed them in): every snapshot must hold the
+        // prefixes acknowledged by the flushes that had returned when that write reached the store
+        let log = std::mem::take(&mut store.snap.lock().unwrap().log);
+        let acks = acks.borrow();
+        let is_eligible = |a: usize| a > 0 && a <= acks.len() && acks[a - 1].iter().any(|n| *n > 0);
+        let n_eligible = log.iter().filter(|(a, _, _)| is_eligible(*a)).count();
+        let stride = (n_eligible / 120).max(1);
+        let off = (sc.ops_seed as usize) % stride;
+        let replay = Arc::new(zarrs::storage::store::MemoryStore::new());
+        let mut i = 0usize;
+        for (a, k, rec) in log.iter() {
+            crate::storesim::apply_write_rec(&replay, rec);
+            if !is_eligible(*a) {
+                continue;
+            }
+            i += 1;
+            if (i - 1) % stride != off && i != n_eligible {
+                continue;
+            }
+            let upto = &acks[*a - 1];
+            let acked: Vec<usize> = (0..upto.len()).filter(|c| upto[*c] > 0).collect();
+            let before = out.violations.len();
+            zarr_checks("zarr_async", "C15", &format!("crash after store write {k} ({a} flushes had returned, acknowledged prefixes {:?})", upto), replay.clone(), h, upto, Some(&acked), sc, false, out);
+            for v in out.violations[before..].iter_mut() {
+                v.key = v.key.replacen("C15/zarr_async/", "C15/zarr_async/crash_between_writes/", 1);
+            }
+            out.probe("async_crash_points_between_store_writes_checked", 1);
+            if out.violations.len() > before {
+                break;
+            }
         }
     }
     drop(rt);
@@ -604,6 +680,7 @@ impl Scenario for StoreScenario {
             "flush_prob": self.flush_prob, "inspect_prob": self.inspect_prob, "density_faults": self.density_faults.len(),
             "fail_write": self.fail_write,
             "fail_write_from_end": self.fail_write_from_end,
+            "crash_every_write": self.crash_every_write,
         })
     }
 }
